@@ -6,7 +6,7 @@
     for the EVM run is not executable (never produced by the harness; refused by the checker). *)
 From Coq Require Import List Bool Arith ZArith.
 Import ListNotations.
-Require Import Nib.C05.Model Nib.C05.Spec Nib.C05.Facts Nib.C05.Proofs.
+Require Import Nib.C05.Model Nib.C05.Spec Nib.C05.Facts Nib.C05.Proofs Nib.C05.ProofsBundle.
 Open Scope Z_scope.
 
 (** Fee arithmetic, all prices and limits: what the signer ends up paying (prepay - refund, both
@@ -80,6 +80,23 @@ Theorem C05_failed_tx_changes_only_fee_and_nonce :
   supply b' = supply b.
 Proof. exact failed_tx_changes_only_fee. Qed.
 Print Assumptions C05_failed_tx_changes_only_fee_and_nonce.
+
+(** ONE Cosmos tx carrying any number of MsgEthereumTx of any signers ([benv_wf]: signers distinct from the
+    fee collector, inside a duplicate-free universe; every message reports 0 <= gasUsed <= gasLimit and
+    leaves the collector alone): supply moves with the balances and never upwards; if the message phase
+    fails every signer has prepaid exactly ITS OWN messages; otherwise every signer the scripts do not
+    touch pays, for its own messages, within one unibi per message of the sum of gasUsed x price, never a negative
+    amount and never more than its own prepayments; the collector gains the sum of the signers' payments;
+    whole-unibi scripts conserve the supply exactly. *)
+Theorem C05_bundle_satisfies_PB :
+  forall e b ms, benv_wf e ms -> nonneg (bal b) -> no_stuck (snd (deliver_bundle e b ms)) ->
+  PB (bmk e ms (snd (deliver_bundle e b ms)) b (fst (deliver_bundle e b ms))).
+Proof. exact bundle_satisfies_PB. Qed.
+Print Assumptions C05_bundle_satisfies_PB.
+
+Theorem C05_bundle_checker_sound : forall m, PBb m = true -> PB m.
+Proof. exact PBb_sound. Qed.
+Print Assumptions C05_bundle_checker_sound.
 
 (** The boolean checker evaluated on implementation measurements is sound for [P]. *)
 Theorem C05_checker_sound : forall m, Pb m = true -> P m.
